@@ -495,7 +495,7 @@ pub const ISO8601_STD: Format = Format {
         }),
         Some(Item {
             token: Token::Subsecond,
-            sep_char: Some(' '),
+            sep_char: None,
             optional: false,
             second_sep_char: None,
         }),
